@@ -9,4 +9,8 @@ CHECKS = {
         'note': 'Trusted: the bounded string/regex models (validated against CPython on every run: re.split model on ~8000 strings, the DP against an independent recursive matcher), z3. ASCII 1..127 only. Normalisation before matching belongs to C05.',
     },
 }
+CHECKS['C02'] = {
+    'text': 'Bounded symbolic model checking of the real DocTest.run part loop, DoctestPart.check and checker.check_got_vs_want/check_output: for every list of k parts (k<=3 quick, <=5 thorough) with symbolic has-code / has-want / eval-mode and symbolic stdout, want and repr texts, the run fails exactly at the first want that matches neither a trailing portion of the pending output nor the value, the execution trace contains every earlier runnable part and no later one, exactly one of passed/failed/skipped holds and "nothing ran" is skipped. Decided for an UNINTERPRETED match relation (hence for the real one under every flag) and again with equality, where every counterexample is replayed end to end.',
+    'note': 'Stubs: compile/exec/eval/CaptureStdout are harness stubs (the text of a part is not executed), normalize+_check_match abstracted (uninterpreted M / equality). Parser grouping of statements into parts is C13/C01, matching is C05/C06. Bounds: k parts, strings <=3 characters.',
+}
 NOT_APPLICABLE = {('C%02d' % i): _PENDING for i in range(1, 21)}
